@@ -227,6 +227,8 @@ class SymExec:
                 st.events.append(('call', f.attr))
                 outs = self.call_method(tgt[2], list(args), dict(kwargs), st, depth + 1, owner=tgt[1].split('.')[0])
                 outs = [o for o in outs if o.status != 'raise']
+                for o in outs:
+                    o.events.append(('ret', f.attr))
                 if len(outs) == 1:
                     o = outs[0]
                     st.fields, st.written, st.calls, st.events, st.conds = o.fields, o.written, o.calls, o.events, o.conds
